@@ -48,3 +48,55 @@ Example C12_example :
   r_err r = true /\ r_panic r = false /\ r_n r = 300 /\ fresh_sink (fail_at 300 false) /\
   r_err (write_to (bs "d") (bs "i") [bs "B1"; bs "B2"; bs "B3"] ex_msg unlimited) = false.
 Proof. vm_compute. repeat split; reflexivity. Qed.
+
+(* ---------------- never silent success, the strong form ----------------
+   On EVERY destination of the modelled family (any capacity, recovering or not): if WriteTo
+   reports no error, the destination never rejected a Write and holds the COMPLETE rendering —
+   byte for byte what a destination without limit receives — and the returned count is its
+   length.  (proofs/CompleteOutputProofs.v: every writer operation commutes with forgetting the
+   destination's capacity as long as no Write was rejected, and a rejection is never forgotten.) *)
+From VerifProofs Require Import CompleteOutputProofs.
+
+Theorem C12_success_means_complete : forall (date msgid : bytes) (rb : list bytes) (m : msg) (k : sink),
+  fresh_sink k ->
+  r_err (write_to date msgid rb m k) = false ->
+  failed (snk (fst (write_msg date msgid rb m (mw_init k)))) = false /\
+  r_out (write_to date msgid rb m k) = r_out (write_to date msgid rb m unlimited) /\
+  r_n (write_to date msgid rb m k) = length (r_out (write_to date msgid rb m unlimited)) /\
+  r_err (write_to date msgid rb m unlimited) = false.
+Proof. exact success_means_complete. Qed.
+Print Assumptions C12_success_means_complete.
+
+(* … which is the pure rendering of the message (coq/theories/Render.v) *)
+Theorem C12_success_means_pure : forall (date msgid : bytes) (rb : list bytes) (m : msg) (k : sink),
+  fresh_sink k -> RenderProofs.no_bad_boundary (resolve date msgid rb m) ->
+  r_err (write_to date msgid rb m k) = false ->
+  r_out (write_to date msgid rb m k) = Render.render_pure (resolve date msgid rb m) /\
+  r_n (write_to date msgid rb m k) = length (Render.render_pure (resolve date msgid rb m)).
+Proof. exact success_means_pure. Qed.
+Print Assumptions C12_success_means_pure.
+
+(* the same for the S/MIME (multipart/signed) render *)
+Theorem C12_signed_success_means_complete :
+  forall (signer : bytes -> bytes) (date msgid : bytes) (rb : list bytes) (sb : bytes) (m : msg) (k : sink),
+  fresh_sink k ->
+  Smime.s_err (Smime.write_to_signed signer date msgid rb sb m k) = false ->
+  Smime.s_out (Smime.write_to_signed signer date msgid rb sb m k) = Smime.s_out (Smime.write_to_signed signer date msgid rb sb m unlimited) /\
+  Smime.s_n (Smime.write_to_signed signer date msgid rb sb m k) = length (Smime.s_out (Smime.write_to_signed signer date msgid rb sb m unlimited)) /\
+  Smime.s_err (Smime.write_to_signed signer date msgid rb sb m unlimited) = false.
+Proof. exact signed_success_means_complete. Qed.
+Print Assumptions C12_signed_success_means_complete.
+
+(* a RECOVERING destination: it rejects the Write that crosses byte 20 and would accept every later
+   one (the destination as the render leaves it accepts a further Write) — the render still reports
+   the error, and what the destination holds is NOT the complete rendering.  A destination that
+   is just large enough gets everything, without error. *)
+Example C12_recovering_sink_example :
+  let big := write_to (bs "d") (bs "i") [bs "B1"; bs "B2"; bs "B3"] ex_msg unlimited in
+  let r := write_to (bs "d") (bs "i") [bs "B1"; bs "B2"; bs "B3"] ex_msg (fail_at 20 true) in
+  let k' := snk (fst (write_msg (bs "d") (bs "i") [bs "B1"; bs "B2"; bs "B3"] ex_msg (mw_init (fail_at 20 true)))) in
+  let ok := write_to (bs "d") (bs "i") [bs "B1"; bs "B2"; bs "B3"] ex_msg (fail_at (length (r_out big)) false) in
+  r_err r = true /\ r_n r = 20 /\ Nat.ltb (r_n r) (length (r_out big)) = true /\
+  snd (sink_write k' (bs "a later write")) = false /\
+  r_err ok = false /\ r_out ok = r_out big.
+Proof. vm_compute. repeat split; reflexivity. Qed.
